@@ -1,10 +1,12 @@
 (* C06 — Change order is a function of the change set; incremental equals rebuilt.
    Only property theorems (closed by [exact]), non-vacuity examples and Print Assumptions.
    Model: Lib/Dag.v, Model/Dfs.v, Model/Tree.v; proofs: Proofs/DfsBase.v, Proofs/TreeInc.v, Proofs/DfsTopo.v, Proofs/TreeTopo.v, Proofs/DfsStable.v,
-   Proofs/TreeAppend.v; rejected batches: Model/TreeReject.v, Proofs/TreeReject.v. *)
-From Coq Require Import List NArith Bool Arith Permutation.
+   Proofs/TreeAppend.v; rejected batches: Model/TreeReject.v, Proofs/TreeReject.v; order ids (the stored order): Model/OrderIds.v,
+   Model/OrderIdsQ.v, Proofs/OrderIdsFill.v, Proofs/OrderIdsTree.v, Proofs/OrderIds.v, Proofs/OrderIdsQ.v. *)
+From Coq Require Import List NArith Bool Arith Permutation QArith.
 Import ListNotations.
 From AnySync Require Import Lib.Dag Model.Dfs Model.Tree Model.TreeReject Proofs.DfsBase Proofs.TreeInc Proofs.DfsTopo Proofs.TreeTopo Proofs.DfsStable Proofs.TreeAppend Proofs.TreeReject.
+From AnySync Require Import Model.OrderIds Model.OrderIdsQ Proofs.OrderIdsFill Proofs.OrderIdsTree Proofs.OrderIds Proofs.OrderIdsQ.
 Open Scope N_scope.
 
 (* The canonical order (reverse post-order of the topSort DFS over id-sorted Next lists) is defined for every
@@ -267,3 +269,142 @@ Example c06_nonvacuous_rejected :
   iter_ids (o_tree (fst r2)) = [1; 3; 4; 5] /\ t_heads (o_tree (fst r2)) = [4; 5] /\ stored_seq (fst r2) = [1; 3; 4; 5] /\
   snd r3 = AddOk Append [6] /\ iter_ids (o_tree (fst r3)) = [1; 3; 4; 5; 6].
 Proof. vm_compute. repeat split. Qed.
+
+(* ================================================================ ORDER IDS: the stored order ================================================================
+
+   Every stored change carries an OrderId string (github.com/anyproto/lexid); storage streams changes in OrderId order.
+   Model/OrderIds.v models the ids as elements of an abstract order and mirrors Tree.updateHeads' gap filling
+   ([fill]: keep assigned ids, NextBefore for a gap that has a later assigned id, Next for the tail), Tree.add's
+   Next("") for a root, and ObjectTree.AddContent (Next of the id of lastIteratedHeadId + Tree.AddMergedHead).
+   Histories [irun ops]: any list of Tree.Add / Tree.AddFast calls with arbitrary batches and local adds, from the
+   empty tree.  VISIBLE HYPOTHESES of the theorems below:
+     lexid_laws          what lexid promises: < is a strict order, prev < Next(prev), prev < b -> prev < NextBefore(prev,b) < b
+                         (satisfiable: c06_oid_laws_satisfiable; checked on every adjacent pair of real stored OrderId
+                         strings by the harness, direct violation "lexid-law")
+     hist_acyclic rk ops one rank that every attached change exceeds over each of its previous ids, in every state the
+                         history goes through ("created after its previous changes"; satisfiable: c06_oid_nonvacuous).
+                         NOT proved: that acyclicity of the final state implies it for the earlier ones (the attached
+                         set only grows) — the hypothesis is therefore stated for every state.
+     wf_prev             (only for "sorting gives the presented sequence") every attached change other than the root has
+                         a previous id — a change without one is attached by Tree.add but never presented and never
+                         gets an order id. *)
+
+(* the ids strictly increase along the presented sequence and every presented change has one *)
+Theorem c06_oid_increase_along_presented : forall oid oltb first_id next_id between, lexid_laws oid oltb next_id between ->
+  forall ops rk, hist_acyclic oid first_id next_id between rk ops ->
+  sorted_ids oid oltb (it_ids oid (irun oid first_id next_id between ops)) (iter_ids (it_tree oid (irun oid first_id next_id between ops))).
+Proof.
+  exact (fun oid oltb f n b L => ids_increase_along_presented oid oltb f n b (proj1 (proj2 (proj2 L))) (proj2 (proj2 (proj2 L)))).
+Qed.
+Print Assumptions c06_oid_increase_along_presented.
+
+(* (a) assigned order ids are pairwise different ... *)
+Theorem c06_oid_distinct : forall oid oltb first_id next_id between, lexid_laws oid oltb next_id between ->
+  forall ops rk, hist_acyclic oid first_id next_id between rk ops ->
+  forall i j x, oget oid (it_ids oid (irun oid first_id next_id between ops)) i = Some x ->
+                oget oid (it_ids oid (irun oid first_id next_id between ops)) j = Some x -> i = j.
+Proof.
+  exact (fun oid oltb f n b L => ids_distinct oid oltb f n b (proj1 L) (proj1 (proj2 L)) (proj1 (proj2 (proj2 L))) (proj2 (proj2 (proj2 L)))).
+Qed.
+Print Assumptions c06_oid_distinct.
+
+(* ... and never change once assigned, whatever happens later (growth never reorders, c06_old_order_stable: the ids already
+   assigned stay increasing along the new presented sequence, so updateHeads only has to fill the gaps) *)
+Theorem c06_oid_stable : forall oid oltb first_id next_id between, lexid_laws oid oltb next_id between ->
+  forall ops1 ops2 rk, hist_acyclic oid first_id next_id between rk (ops1 ++ ops2) ->
+  forall i x, oget oid (it_ids oid (irun oid first_id next_id between ops1)) i = Some x ->
+              oget oid (it_ids oid (irun oid first_id next_id between (ops1 ++ ops2))) i = Some x.
+Proof.
+  exact (fun oid oltb f n b L => ids_stable oid oltb f n b (proj1 (proj2 (proj2 L))) (proj2 (proj2 (proj2 L)))).
+Qed.
+Print Assumptions c06_oid_stable.
+
+(* (b) sorting the attached changes by order id — what Storage.GetAfterOrder streams — gives exactly the canonical order
+   of the attached set, the sequence the tree presents: the model assumption "stored order = order S root" *)
+Theorem c06_storage_order_eq : forall oid oltb first_id next_id between, lexid_laws oid oltb next_id between ->
+  forall ops rk, hist_acyclic oid first_id next_id between rk ops ->
+  t_att (it_tree oid (irun oid first_id next_id between ops)) <> [] ->
+  wf_prev (it_tree oid (irun oid first_id next_id between ops)) ->
+  it_stored oid oltb (irun oid first_id next_id between ops)
+  = order (t_att (it_tree oid (irun oid first_id next_id between ops))) (t_root (it_tree oid (irun oid first_id next_id between ops))).
+Proof.
+  exact (fun oid oltb f n b L => storage_order_eq oid oltb f n b (proj1 L) (proj1 (proj2 L)) (proj1 (proj2 (proj2 L))) (proj2 (proj2 (proj2 L)))).
+Qed.
+Print Assumptions c06_storage_order_eq.
+
+(* ... hence (with c06_topological) the stored order is a linear extension of causality: no repeats, every stored change
+   has all the attached changes that cite it later in the stored order *)
+Theorem c06_stored_order_causal : forall oid oltb first_id next_id between, lexid_laws oid oltb next_id between ->
+  forall ops rk, hist_acyclic oid first_id next_id between rk ops ->
+  t_att (it_tree oid (irun oid first_id next_id between ops)) <> [] ->
+  wf_prev (it_tree oid (irun oid first_id next_id between ops)) ->
+  NoDup (it_stored oid oltb (irun oid first_id next_id between ops)) /\
+  forall l1 p l2, it_stored oid oltb (irun oid first_id next_id between ops) = l1 ++ p :: l2 ->
+    forall c, In c (view (t_att (it_tree oid (irun oid first_id next_id between ops))) (t_root (it_tree oid (irun oid first_id next_id between ops)))) ->
+    In p (cprev c) -> In (cid c) l2.
+Proof.
+  exact (fun oid oltb f n b L => stored_order_causal oid oltb f n b (proj1 L) (proj1 (proj2 L)) (proj1 (proj2 (proj2 L))) (proj2 (proj2 (proj2 L)))).
+Qed.
+Print Assumptions c06_stored_order_causal.
+
+(* (c) a local add (AddContent) that goes through cites exactly the heads and gets an order id above the stored id of
+   every one of them (its id is Next of the id of lastIteratedHeadId, which is the last presented change and so carries
+   the greatest id — the place where the seeded change C06-seed1 = C09-seed1 breaks the code) *)
+Theorem c06_local_id_above_parents : forall oid oltb first_id next_id between, lexid_laws oid oltb next_id between ->
+  forall ops id rk, hist_acyclic oid first_id next_id between rk (ops ++ [ILocal id]) ->
+  it_local oid next_id (irun oid first_id next_id between ops) id <> irun oid first_id next_id between ops ->
+  exists y, oget oid (it_ids oid (irun oid first_id next_id between (ops ++ [ILocal id]))) id = Some y /\
+    cprev (local_change (it_tree oid (irun oid first_id next_id between ops)) id false) = t_heads (it_tree oid (irun oid first_id next_id between ops)) /\
+    forall p, In p (t_heads (it_tree oid (irun oid first_id next_id between ops))) ->
+      exists xp, oget oid (it_ids oid (irun oid first_id next_id between ops)) p = Some xp /\
+                 oget oid (it_ids oid (irun oid first_id next_id between (ops ++ [ILocal id]))) p = Some xp /\ olt oid oltb xp y.
+Proof.
+  exact (fun oid oltb f n b L => local_id_above_parents oid oltb f n b (proj1 L) (proj1 (proj2 (proj2 L))) (proj2 (proj2 (proj2 L)))).
+Qed.
+Print Assumptions c06_local_id_above_parents.
+
+(* the laws are satisfiable: the rationals with a+1 and the midpoint (the instance the correspondence runs execute) *)
+Theorem c06_oid_laws_satisfiable : lexid_laws Q qltb q_next q_between.
+Proof. exact q_laws. Qed.
+Print Assumptions c06_oid_laws_satisfiable.
+
+(* non-vacuity: root 5 with the concurrent children 9, 3, 7 (presented 5 3 7 9: the last iterated head 9 happens to be the
+   greatest here), a LOCAL merge 50 of the three heads, then a late child 8 of 3 and a late child 4 of 5 arrive (gaps
+   filled with [between]), a second local change 60 merges the heads {4, 8, 50} — last iterated head 50 — and 2, a late
+   child of 9, arrives.  The hypotheses hold, sorting by order id gives the presented sequence. *)
+Definition oid_ops : list iop :=
+  [IAdd [g_root]; IAdd [g_a; g_b]; IAddFast [g_s]; ILocal 50; IAdd [mkChange 8 [3] 5 false; mkChange 4 [5] 5 false]; ILocal 60;
+   IAdd [mkChange 2 [9] 5 false]].
+Definition oid_rk (i : N) : nat :=
+  match i with 5 => 0%nat | 9 => 1%nat | 3 => 1%nat | 7 => 1%nat | 50 => 2%nat | 8 => 2%nat | 4 => 1%nat | 60 => 3%nat | 2 => 2%nat | _ => 0%nat end.
+
+(* (conversions are kept in VM casts of goals: [vm_compute in H] would leave a conversion for the kernel's lazy machine) *)
+Ltac vm_list_in H :=
+  match type of H with In _ ?V => let v := eval vm_compute in V in replace V with v in H by (vm_compute; reflexivity) end.
+Ltac vm_lhs :=
+  match goal with |- ?A <> _ => let v := eval vm_compute in A in replace A with v by (vm_compute; reflexivity) end.
+
+Example c06_oid_nonvacuous :
+  hist_acyclic Q q_first q_next q_between oid_rk oid_ops /\
+  t_att (it_tree Q (qrun oid_ops)) <> [] /\ wf_prev (it_tree Q (qrun oid_ops)) /\
+  iter_ids (it_tree Q (qrun oid_ops)) = [5; 3; 8; 4; 7; 9; 2; 50; 60] /\
+  qstored (qrun oid_ops) = [5; 3; 8; 4; 7; 9; 2; 50; 60] /\
+  it_local Q q_next (qrun (firstn 3 oid_ops)) 50 <> qrun (firstn 3 oid_ops) /\
+  t_heads (it_tree Q (qrun (firstn 5 oid_ops))) = [4; 8; 50] /\ t_last (it_tree Q (qrun (firstn 5 oid_ops))) = 50.
+Proof.
+  split; [|split; [|split; [|split; [|split; [|split; [|split]]]]]].
+  - unfold hist_acyclic, oid_ops. cbn [acyclic_along].
+    do 7 (split; [intros c p Hc Hp; vm_list_in Hc; cbn [In] in Hc;
+      repeat (destruct Hc as [Hc|Hc];
+              [subst c; cbn [cprev In] in Hp; repeat (destruct Hp as [Hp|Hp]; [subst p; vm_compute; repeat constructor|]); destruct Hp|]);
+      destruct Hc|]). exact I.
+  - vm_lhs. discriminate.
+  - intros c Hc. vm_list_in Hc. cbn [In] in Hc. repeat (destruct Hc as [Hc|Hc]; [subst c; cbn [cprev]; discriminate|]). destruct Hc.
+  - vm_compute. reflexivity.
+  - vm_compute. reflexivity.
+  - assert (E : Nat.eqb (length (it_ids Q (it_local Q q_next (qrun (firstn 3 oid_ops)) 50))) (length (it_ids Q (qrun (firstn 3 oid_ops)))) = false)
+      by (vm_compute; reflexivity).
+    intro H. rewrite H, Nat.eqb_refl in E. discriminate E.
+  - vm_compute. reflexivity.
+  - vm_compute. reflexivity.
+Qed.
